@@ -10,8 +10,11 @@ for f in ("patch.diff", "demo.py"):
     shutil.copy(src / f, dst / f)
 meta = json.loads((src / "meta.json").read_text())
 res = dict(kv.split("=", 1) for kv in line.split()[2:] if "=" in kv)
+WT = len(sys.argv) > 5 and sys.argv[5] == "wt"
 meta["confirmed"] = {
-    "ran": ["git -C /repo apply patch.diff", "PYTHONPATH=/repo/hugr-py/src /venv/bin/python demo.py (clean tree and changed tree)",
+    "ran": ["git -C /repo worktree add --detach /tmp/mr/<id> HEAD; git -C /tmp/mr/<id> apply patch.diff", "PYTHONPATH=/tmp/mr/<id>/hugr-py/src /venv/bin/python demo.py (clean and changed worktree)",
+            "pinned baseline test-suite in the changed worktree", "VERIF_REPO=/tmp/mr/<id> ./check <property> --tier quick", "git -C /repo worktree remove --force /tmp/mr/<id>"] if WT else
+           ["git -C /repo apply patch.diff", "PYTHONPATH=/repo/hugr-py/src /venv/bin/python demo.py (clean tree and changed tree)",
             "pinned baseline test-suite on the changed tree (/root/.vp/BASELINE.json command)",
             "./check <property> --tier quick on the changed tree", "git -C /repo checkout -- ."],
     "demo_exit_clean_tree": int(res.get("demo_clean", -1)), "demo_exit_changed_tree": int(res.get("demo_mut", -1)),
